@@ -694,5 +694,197 @@ theorem ev_exString (hg : ExStringRules g) (s : S0) (cs : SStr) {r : Str}
   simpa [ruleWrap, hasBit, SILENT, ATOMIC, COMPOUND, mirrorStr, mkPair, adv, sa, strText_length, Nat.add_assoc,
     Nat.add_comm 1] using this
 
+/-! ### `number`, `int`, `exp` of tests/grammars/json.pest
+
+    number = @{ "-"? ~ int ~ ("." ~ ASCII_DIGIT+ ~ exp? | exp)? }
+    int    = @{ "0" | ASCII_NONZERO_DIGIT ~ ASCII_DIGIT* }
+    exp    = @{ ("E" | "e") ~ ("+" | "-")? ~ ASCII_DIGIT+ } -/
+
+def tIntBody : Expr := .choice [(.str [48]), (.seq [NZDIGIT, (.rep DIGIT)])]
+def tExpBody : Expr := .seq [(.group (.choice [(.str [69]), (.str [101])]) none), exSignExpr, (.rep1 DIGIT)]
+def tFracExpr : Expr :=
+  .opt (.group (.choice [(.seq [(.str [46]), (.rep1 DIGIT), (.opt (.ident "exp" none))]), (.ident "exp" none)]) none)
+def tNumberBody : Expr := .seq [(.opt (.str [45])), (.ident "int" none), tFracExpr]
+
+structure TNumberRules (g : Grammar) : Prop where
+  number : ∃ k, g.lookup "number" = some { name := "number", mod := 4, body := tNumberBody, kind := k }
+  int : ∃ k, g.lookup "int" = some { name := "int", mod := 4, body := tIntBody, kind := k }
+  exp : ∃ k, g.lookup "exp" = some { name := "exp", mod := 4, body := tExpBody, kind := k }
+
+theorem atomic_wrap (name : String) (s s' : S0) (ps : List Pair) (hv : visibleList ps = []) :
+    ruleWrap name 4 s s' ps = .ok { s' with atomic := s.atomic } [.mk name 4 s.pos s'.pos [] none] := by
+  simp [ruleWrap, hasBit, SILENT, ATOMIC, hv]
+
+theorem atomic_enter (name : String) (b : Bool) : ruleAtomic name 4 b = true := by
+  simp [ruleAtomic, hasBit, ATOMIC]
+
+theorem visible_atomic_leaf (name : String) (a b : Nat) (rest : List Pair) (h : visibleList rest = []) :
+    visibleList (.mk name 4 a b [] none :: rest) = [] := by
+  simp [visibleList, Pair.visible, hasBit, COMPOUND, NONATOMIC, h]
+
+theorem same_atomic (s : S0) (k : Nat) (h : s.atomic = true) :
+    ({ adv s k with atomic := s.atomic } : S0) = adv s k := by
+  cases s; simp_all [adv]
+
+theorem ev_tInt (hg : TNumberRules g) {s : S0} (hat : s.atomic = true) (i : IntPart) {r : Str}
+    (hr : RestAt inp s.pos (intText i ++ r)) (hf : HeadIs (fun c => ¬ IsDigit c) r) :
+    Ev g inp (.ident "int" none) s
+      (.ok (adv s (intText i).length) [.mk "int" 4 s.pos (s.pos + (intText i).length) [] none]) := by
+  obtain ⟨k, hl⟩ := hg.int
+  have hb : Ev g inp tIntBody s (.ok (adv s (intText i).length) []) := by
+    have := ev_exInt (g := g) hat i hr hf
+    obtain ⟨N, h⟩ := this.step
+    exact ev_of_step N fun n hn => by
+      have := h n hn
+      simpa [exIntExpr, tIntBody, L0.step] using this
+  have hs : ({ s with atomic := ruleAtomic "int" 4 s.atomic } : S0) = s := by
+    rw [atomic_enter]; cases s; simp_all
+  have := ev_ident_ok (tag := none) (s := s) hl (by rw [hs]; exact hb)
+  rw [atomic_wrap _ _ _ _ rfl, same_atomic _ _ hat] at this
+  simpa using this
+
+theorem ev_tExp (hg : TNumberRules g) {s : S0} (hat : s.atomic = true) (e : Exp) {r : Str}
+    (hr : RestAt inp s.pos (expText e ++ r)) (hf : HeadIs (fun c => ¬ IsDigit c) r) :
+    Ev g inp (.ident "exp" none) s
+      (.ok (adv s (expText e).length) [.mk "exp" 4 s.pos (s.pos + (expText e).length) [] none]) := by
+  obtain ⟨k, hl⟩ := hg.exp
+  have hb : Ev g inp tExpBody s (.ok (adv s (expText e).length) []) := by
+    rw [expText_eq] at hr ⊢
+    have hr' : RestAt inp s.pos ((if e.upper then 69 else 101) ::
+        (expSignText e.sign ++ e.d.cp :: (digitsText e.ds ++ r))) := by
+      simpa [digitsText] using hr
+    have h1 : Ev g inp (.group (.choice [(.str [69]), (.str [101])]) none) s (.ok (adv s 1) []) := by
+      apply ev_group
+      cases hu : e.upper with
+      | true => exact ev_choice_ok (ev_str1_ok (by simpa [hu] using hr'))
+      | false =>
+        have hr'' : RestAt inp s.pos (101 :: (expSignText e.sign ++ e.d.cp :: (digitsText e.ds ++ r))) := by
+          simpa [hu] using hr'
+        exact ev_choice_next (ev_str1_fail hr'' (by show (101 : CP) ≠ 69; decide)) (ev_choice_ok (ev_str1_ok hr''))
+    have h2 := ev_exSign (g := g) (s := adv s 1) e.sign e.d (by simpa using hr'.tail)
+    have hr2 : RestAt inp (adv (adv s 1) (expSignText e.sign).length).pos (e.d.cp :: (digitsText e.ds ++ r)) := by
+      have := (hr'.tail).advance
+      simpa [Nat.add_assoc] using this
+    have h3 := ev_digit_ok (g := g) hr2
+    have h4 := ev_rep_digits (g := g) (s := adv (adv (adv s 1) (expSignText e.sign).length) 1)
+      (by simpa using hat) e.ds (by simpa using hr2.tail) hf
+    have h5 := ev_rep1 (evSeq_cons h3 (evSkip_atomic (by simpa using hat)) (evSeq_last h4))
+    have h6 := ev_seq
+      (evSeq_cons h1 (evSkip_atomic (by simpa using hat)) (evSeq_cons h2 (evSkip_atomic (by simpa using hat)) (evSeq_last h5)))
+    have e' : ((if e.upper then (69 : CP) else 101) :: (expSignText e.sign ++ digitsText (e.d :: e.ds))).length
+        = 1 + (expSignText e.sign).length + 1 + e.ds.length := by
+      simp [digitsText]; omega
+    rw [e']
+    simpa [adv_adv, Nat.add_assoc, tExpBody] using h6
+  have hs : ({ s with atomic := ruleAtomic "exp" 4 s.atomic } : S0) = s := by
+    rw [atomic_enter]; cases s; simp_all
+  have := ev_ident_ok (tag := none) (s := s) hl (by rw [hs]; exact hb)
+  rw [atomic_wrap _ _ _ _ rfl, same_atomic _ _ hat] at this
+  simpa using this
+
+theorem ev_tExp_fail (hg : TNumberRules g) {s : S0} {r : Str} (hr : RestAt inp s.pos r)
+    (hf : HeadIs (fun c => c ≠ 101 ∧ c ≠ 69) r) : Ev g inp (.ident "exp" none) s .fail := by
+  obtain ⟨k, hl⟩ := hg.exp
+  apply ev_ident_fail (tag := none) hl
+  apply ev_seq
+  apply evSeq_fail
+  apply ev_group
+  exact ev_choice_next (ev_str1_fail hr (hf.mono fun c h => h.2))
+    (ev_choice_next (ev_str1_fail hr (hf.mono fun c h => h.1)) ev_choice_nil)
+
+/-- the pairs `exp` leaves, if any -/
+def tExpPairs (p : Nat) : Option Exp → List Pair
+  | none => []
+  | some e => [.mk "exp" 4 p (p + (expText e).length) [] none]
+
+theorem visible_tExpPairs (p : Nat) (e : Option Exp) : visibleList (tExpPairs p e) = [] := by
+  cases e <;> simp [tExpPairs, visibleList, Pair.visible, hasBit, COMPOUND, NONATOMIC]
+
+/-- `exp?` -/
+theorem ev_tExpOpt (hg : TNumberRules g) {s : S0} (hat : s.atomic = true) (e : Option Exp) {r : Str}
+    (hr : RestAt inp s.pos (expOptText e ++ r)) (hf : HeadIs (fun c => ¬ IsDigit c ∧ c ≠ 101 ∧ c ≠ 69) r) :
+    Ev g inp (.opt (.ident "exp" none)) s (.ok (adv s (expOptText e).length) (tExpPairs s.pos e)) := by
+  cases e with
+  | none =>
+    simpa [expOptText, adv_zero, tExpPairs] using
+      ev_opt_none (ev_tExp_fail hg (by simpa [expOptText] using hr) (hf.mono fun c h => h.2))
+  | some e =>
+    exact ev_opt_ok (ev_tExp hg hat e (by simpa [expOptText] using hr) (hf.mono fun c h => h.1))
+
+/-- `("." ~ ASCII_DIGIT+ ~ exp? | exp)?` -/
+theorem ev_tFrac (hg : TNumberRules g) {s : S0} (hat : s.atomic = true) (f : Option (Digit × List Digit))
+    (e : Option Exp) {r : Str} (hr : RestAt inp s.pos (fracText f ++ (expOptText e ++ r)))
+    (hf : HeadIs NumFollow r) :
+    Ev g inp tFracExpr s (.ok (adv s ((fracText f).length + (expOptText e).length))
+      (tExpPairs (s.pos + (fracText f).length) e)) := by
+  have hfe : HeadIs (fun c => ¬ IsDigit c ∧ c ≠ 101 ∧ c ≠ 69) r := hf.mono fun c h => ⟨h.1, h.2.2⟩
+  cases f with
+  | some f =>
+    obtain ⟨d, ds⟩ := f
+    have hr' : RestAt inp s.pos (46 :: (d.cp :: (digitsText ds ++ (expOptText e ++ r)))) := by
+      simpa [fracText, digitsText] using hr
+    have h1 := ev_str1_ok (g := g) hr'
+    have hd := ev_digit_ok (g := g) (s := adv s 1) (by simpa using hr'.tail)
+    have hnd : HeadIs (fun c => ¬ IsDigit c) (expOptText e ++ r) :=
+      headIs_append (headIs_expOptText not_digit_69 not_digit_101 e) (fun _ => hf.mono fun c h => h.1)
+    have hds := ev_rep_digits (g := g) (s := adv (adv s 1) 1) (by simpa using hat) ds
+      (by simpa [Nat.add_assoc] using hr'.tail.tail) hnd
+    have h2 := ev_rep1 (evSeq_cons hd (evSkip_atomic (by simpa using hat)) (evSeq_last hds))
+    have hr3 : RestAt inp (adv (adv (adv s 1) 1) ds.length).pos (expOptText e ++ r) := by
+      have := (hr'.tail.tail).advance
+      simpa [Nat.add_assoc] using this
+    have h3 := ev_tExpOpt hg (s := adv (adv (adv s 1) 1) ds.length) (by simpa using hat) e hr3 hfe
+    have := ev_opt_ok (ev_group (t := none) (ev_choice_ok (rest := [(.ident "exp" none)]) (ev_seq
+      (evSeq_cons h1 (evSkip_atomic (by simpa using hat))
+        (evSeq_cons h2 (evSkip_atomic (by simpa using hat)) (evSeq_last h3))))))
+    have e1 : (fracText (some (d, ds))).length = 1 + 1 + ds.length := by simp [fracText, digitsText]; omega
+    rw [e1]
+    simpa [tFracExpr, adv_adv, Nat.add_assoc] using this
+  | none =>
+    have hr' : RestAt inp s.pos (expOptText e ++ r) := by simpa [fracText] using hr
+    have h46 : HeadIs (fun c => c ≠ 46) (expOptText e ++ r) :=
+      headIs_append (headIs_expOptText (by decide) (by decide) e) (fun _ => hf.mono fun c h => h.2.1)
+    have a1 : Ev g inp (.seq [(.str [46]), (.rep1 DIGIT), (.opt (.ident "exp" none))]) s .fail :=
+      ev_seq (evSeq_fail (ev_str1_fail hr' h46))
+    cases e with
+    | none =>
+      have a2 := ev_tExp_fail hg (by simpa [expOptText] using hr') (hfe.mono fun c h => h.2)
+      simpa [tFracExpr, fracText, expOptText, adv_zero, tExpPairs] using
+        ev_opt_none (ev_group (t := none) (ev_choice_next a1 (ev_choice_next a2 ev_choice_nil)))
+    | some e =>
+      have h2 := ev_tExp hg hat e (by simpa [expOptText] using hr') (hfe.mono fun c h => h.1)
+      simpa [tFracExpr, fracText, expOptText, tExpPairs] using
+        ev_opt_ok (ev_group (t := none) (ev_choice_next a1 (ev_choice_ok (rest := []) h2)))
+
+/-- **`number` of tests/grammars/json.pest accepts every RFC 8259 number**, as one childless
+    pair (the nested atomic rules `int` and `exp` are hidden by the atomic `number`). -/
+theorem ev_tNumber (hg : TNumberRules g) (s : S0) (n : Num) {post : Str}
+    (hr : RestAt inp s.pos (numText n ++ post)) (hf : HeadIs NumFollow post) :
+    Ev g inp (.ident "number" none) s
+      (.ok (adv s (numText n).length) [mkPair "number" ATOMIC s.pos (s.pos + (numText n).length) []]) := by
+  obtain ⟨k, hl⟩ := hg.number
+  let sa : S0 := { s with atomic := true }
+  rw [numText_eq] at hr ⊢
+  have hr0 : RestAt inp sa.pos (signText n.neg ++ (intText n.int ++ (fracText n.frac ++ (expOptText n.exp ++ post)))) := by
+    simpa [List.append_assoc] using hr
+  have h1 := ev_exSignOpt (g := g) (s := sa) n.neg hr0
+    (headIs_append (fun _ => headIs_intText n.int) (fun h => absurd h (intText_ne_nil n.int)))
+  have hr1 := hr0.advance
+  have f2 : HeadIs (fun c => ¬ IsDigit c) (fracText n.frac ++ (expOptText n.exp ++ post)) :=
+    headIs_append (headIs_fracText not_digit_46 n.frac)
+      (fun _ => headIs_append (headIs_expOptText not_digit_69 not_digit_101 n.exp) (fun _ => hf.mono fun c h => h.1))
+  have h2 := ev_tInt hg (s := adv sa (signText n.neg).length) rfl n.int (by simpa using hr1) f2
+  have hr2 : RestAt inp (adv (adv sa (signText n.neg).length) (intText n.int).length).pos
+      (fracText n.frac ++ (expOptText n.exp ++ post)) := by
+    have := hr1.advance
+    simpa [Nat.add_assoc] using this
+  have h3 := ev_tFrac hg (s := adv (adv sa (signText n.neg).length) (intText n.int).length) rfl n.frac n.exp hr2 hf
+  have hsk : ∀ t : S0, t.atomic = true → EvSkip g inp t t [] := fun t ht => evSkip_atomic ht
+  have hbody := ev_seq (evSeq_cons h1 (hsk _ rfl) (evSeq_cons h2 (hsk _ rfl) (evSeq_last h3)))
+  have := ev_ident_ok (tag := none) (s := s) hl
+    (by simpa [atomic_enter, tNumberBody, sa] using hbody)
+  rw [atomic_wrap _ _ _ _ (by simp [visible_atomic_leaf, visible_tExpPairs])] at this
+  simpa [mkPair, ATOMIC, adv, sa, Nat.add_assoc] using this
+
 end Json
 end Pest
